@@ -19,6 +19,17 @@ LEVEL = "exploration"
 MAX_SAMPLES = 12
 MAX_VIOLATIONS = 5
 
+CASE_TIMEOUT = float(os.environ.get("VF_CASE_TIMEOUT", "20"))
+
+
+class StopWorkload(BaseException):
+    """ends a shard's workload early after repeated case time-outs"""
+
+
+class CaseTimeout(BaseException):
+    """raised by the per-case watchdog (BaseException: not swallowed by `except Exception`)"""
+
+
 CHECKS = {}   # "Cxx.name" -> fn(ctx, case)
 RULES = {}    # "Cxx" -> rule text
 
@@ -160,10 +171,30 @@ class Ctx:
 
     def run(self, check_name, case):
         """Run a registered check on one case; unexpected exceptions of the
-        harness or the code under test are violations (never silent)."""
+        harness or the code under test are violations (never silent); so is a
+        case that does not finish within CASE_TIMEOUT seconds (generous: the
+        slowest legitimate case takes well under a second)."""
         fn = CHECKS[check_name]
+        import signal
+
+        def _alarm(*a):
+            raise CaseTimeout()
+        try:
+            old = signal.signal(signal.SIGALRM, _alarm)
+            signal.setitimer(signal.ITIMER_REAL, CASE_TIMEOUT)
+        except ValueError:      # not in the main thread
+            old = None
         try:
             fn(self, case)
+        except CaseTimeout:
+            self.fail(check_name, case, "did-not-terminate",
+                      f"case did not finish within {CASE_TIMEOUT}s (non-termination or runaway "
+                      f"cost in the code under test)")
+            self.counters["case_timeouts"] += 1
+            if self.counters["case_timeouts"] >= 3:
+                # every further witness costs a full watchdog interval: the violation is
+                # recorded, stop this shard's workload
+                raise StopWorkload() from None
         except RecursionError:
             self.count("recursion_skipped")
         except Exception as e:
@@ -172,6 +203,10 @@ class Ctx:
             self.fail(check_name, case,
                       f"unexpected:{type(e).__name__}@{os.path.basename(where.filename)}:{where.name}",
                       f"{type(e).__name__}: {e}\n{tb}")
+        finally:
+            if old is not None:
+                signal.setitimer(signal.ITIMER_REAL, 0)
+                signal.signal(signal.SIGALRM, old)
 
     # -- (de)serialisation for shard merging --------------------------------
     def dump(self):
